@@ -4,6 +4,7 @@ import (
 	"context"
 	"encoding/hex"
 	"fmt"
+	"math"
 	"math/big"
 	"math/rand"
 	"os"
@@ -53,8 +54,29 @@ type sop struct {
 	Tag string `json:"tag"` // set_sum: "set" | "sum"; "" otherwise
 }
 
+// Ordinals are logged as RANKS 0..6 (TLC integers are 32-bit and only the order matters); the real code receives
+// realOrd(rank): ranks 5 and 6 stand for ordinals at and above 2^63 (a final write / clean-up at u64::MAX).
+var bigOrds = map[uint64]uint64{5: 1<<63 + 1, 6: math.MaxUint64}
+
+func realOrd(rank uint64) uint64 {
+	if v, ok := bigOrds[rank]; ok {
+		return v
+	}
+	return rank
+}
+
+func rankOf(ord uint64) uint64 {
+	for k, v := range bigOrds {
+		if v == ord {
+			return k
+		}
+	}
+	return ord
+}
+
 // issue performs the operation through the REAL host functions of wasm.Call.
 func issue(c *wasm.Call, pol, vt string, o sop) {
+	o.Ord = realOrd(o.Ord)
 	if o.Op == "del" {
 		c.DoDeletePrefix(o.Ord, o.Key)
 		return
@@ -219,7 +241,7 @@ type jdelta struct {
 func deltasOf(pol, vt string, ds []*pbsubstreams.StoreDelta) []jdelta {
 	out := []jdelta{}
 	for _, d := range ds {
-		j := jdelta{Ord: d.Ordinal, Key: d.Key, Old: []any{}, New: []any{}}
+		j := jdelta{Ord: rankOf(d.Ordinal), Key: d.Key, Old: []any{}, New: []any{}}
 		switch d.Operation {
 		case pbsubstreams.StoreDelta_CREATE:
 			j.Op = "C"
@@ -346,8 +368,8 @@ func (c *chain) reads(ords []uint64, keys []string) []readRec {
 		v, f = call.DoGetLast(0, k)
 		out = append(out, readRec{"last", 0, k, optRead(c.pol.name, c.vt, f, v), f, call.DoHasLast(0, k)})
 		for _, o := range ords {
-			v, f = call.DoGetAt(0, o, k)
-			out = append(out, readRec{"at", o, k, optRead(c.pol.name, c.vt, f, v), f, call.DoHasAt(0, o, k)})
+			v, f = call.DoGetAt(0, realOrd(o), k)
+			out = append(out, readRec{"at", o, k, optRead(c.pol.name, c.vt, f, v), f, call.DoHasAt(0, realOrd(o), k)})
 		}
 	}
 	return out
@@ -618,8 +640,10 @@ func runStore(a *args) error {
 						nops, maxOrd := r.Intn(7), 5
 						if r.Intn(4) == 0 { // long blocks with many ties on the ordinal (stability of the sort)
 							nops, maxOrd = 13+r.Intn(40), 1+r.Intn(4)
+						} else if r.Intn(3) == 0 { // ordinals up to u64::MAX (ranks 5 and 6)
+							maxOrd = 7
 						}
-						c.block(randOps(r, pol.name, keys, nops, maxOrd), []uint64{0, 1, 2, 3, 4, 5}, true)
+						c.block(randOps(r, pol.name, keys, nops, maxOrd), []uint64{0, 1, 2, 3, 4, 5, 6}, true)
 						if r.Intn(3) == 0 {
 							c.cut()
 						}
